@@ -158,6 +158,7 @@ func propC10(c *Ctx) {
 	var corrEnc, corrDec, corrNew, corrSeq []corrCase
 	c.c10Encrypt(g, &corrEnc)
 	c.c10FreshIV(g, &corrSeq)
+	c.c10ManyCalls(g)
 	c.c10RandFailure(g, &corrEnc)
 	c.c10KeySizes(g, &corrNew)
 	c.c10Decrypt(g, &corrDec)
@@ -1034,6 +1035,7 @@ func propC17(c *Ctx) {
 		c.c17Sequence(s, g, g.saKeys(st), c.n(160, 3000), idx, &corr)
 		saProtectBias = 0
 	}
+	c.c17ManyCalls(g)
 	sc := c.suite("saops-model-vs-impl", "correspondence",
 		"the first <= 64 operations (line <= 28 KB) of every history: outcomes of the Go long-lived object, op by op, = the Lean model's saRun threading one SAKey state (protect / unprotect of Ike.lean, childKeys); non-trivial = >= 2 operations of >= 2 kinds")
 	c.correspond(sc, corr)
